@@ -219,7 +219,7 @@ def Item.wf : Item → Bool
 
 def HLine.wf (h : HLine) : Bool :=
   okText h.content && decide (h.content.length ≤ 60) && okText h.label && Clean h.label && !h.label.isEmpty &&
-  h.label.take 13 != endLabel
+  h.label.take 13 != endLabel && h.label != versionLabel
 
 def NavFile.wf (f : NavFile) : Bool :=
   okText f.version && decide (f.version.length ≤ 20) && okText f.ftype && decide (f.ftype.length ≤ 20) &&
